@@ -388,7 +388,7 @@ func (e *Engine) Run(t *core.Tape, cfg *core.Config, st *core.Stats) (viol *core
 	for i := 0; i < nops; i++ {
 		name := names[t.Choose(nn)]
 		fpath := filepath.Join(dir, fileKey(name)+".lua")
-		switch k := t.Weighted([]int{8, 5, 1, 1, 3, 2, 2, 1, 1, 1, 1, 1, 1}); k {
+		switch k := t.Weighted([]int{8, 5, 1, 1, 3, 2, 2, 1, 1, 1, 1, 1, 1, 1, 1}); k {
 		case 0: // require
 			if !reduced && t.Choose(6) == 0 {
 				// require with an error injected at an arbitrary instruction while loaders run
@@ -733,6 +733,48 @@ func (e *Engine) Run(t *core.Tape, cfg *core.Config, st *core.Stats) (viol *core
 				return fail("host-module", "a host module registered under a parent that inherits from the globals must be its own table inside the parent, not the global of the same leaf name; got ok:type:in-parent:is-the-global:f():global.f = %s", res)
 			}
 			st.Probe("host_module_under_seeall_parent")
+		case 13: // package.loaded gets a metatable that keeps every entry in a side table (a module tracker)
+			if reduced {
+				continue
+			}
+			if _, v := runLua("if not TRACK then TRACK = {}; for k, v in pairs(package.loaded) do TRACK[k] = v; rawset(package.loaded, k, nil) end; setmetatable(package.loaded, {__index = TRACK, __newindex = function(t, k, v) TRACK[k] = v end}) end; return \"\""); v != nil {
+				return v
+			}
+			log = append(log, "package.loaded now keeps its entries in a side table (metatable with __index and __newindex)")
+			st.Probe("package_loaded_with_metatable")
+		case 14: // a sandbox state without the package library: host modules and opened libraries answer require from the cache
+			if reduced {
+				continue
+			}
+			var res string
+			func() {
+				defer func() {
+					if r := recover(); r != nil {
+						res = fmt.Sprintf("Go panic: %v", r)
+					}
+				}()
+				S := lua.NewState(lua.Options{SkipOpenLibs: true})
+				defer S.Close()
+				for _, pair := range []struct {
+					n string
+					f lua.LGFunction
+				}{{lua.BaseLibName, lua.OpenBase}, {lua.StringLibName, lua.OpenString}} {
+					S.Push(S.NewFunction(pair.f))
+					S.Push(lua.LString(pair.n))
+					S.Call(1, 0)
+				}
+				S.RegisterModule("sandmod", map[string]lua.LGFunction{"f": func(L *lua.LState) int { L.Push(lua.LNumber(7)); return 1 }})
+				if err := S.DoString("local a, b = require(\"sandmod\"), require(\"string\"); R = tostring(rawequal(a, sandmod)) .. \":\" .. tostring(rawequal(b, string)) .. \":\" .. tostring(a.f())"); err != nil {
+					res = "error: " + err.Error()
+					return
+				}
+				res = S.GetGlobal("R").String()
+			}()
+			log = append(log, fmt.Sprintf("sandbox state (base and string only): require of a host module and of an opened library -> %s", firstLine(res)))
+			if res != "true:true:7" {
+				return fail("host-module", "in a state without the package library, require of a registered host module and of an opened library must return the tables bound to their global names; got %s", res)
+			}
+			st.Probe("sandbox_state_require")
 		case 9: // a storm of failing loads: the same broken module is unloaded and required again many times
 			if reduced {
 				continue
